@@ -329,3 +329,208 @@ Theorem C06_text_between_lower_and_refuted :
   parse_text keys_ex dec_ex (unlex (conc_all keys_ex enc_ex (render_min tree_band))) = Some (Bin And (Btw (Atom 1) (Atom 3) (Atom 5)) (Atom 7)).
 Proof. exact text_band_witness. Qed.
 Print Assumptions C06_text_between_lower_and_refuted.
+
+(* ================================================================== the EXTENDED expression language (owner of this part: prover-C06).
+   coq/C06/ModelExt.v: trees of the operator fragment plus if / then / else, for x in e [.. e] [, y in e]* return e,
+   some / every x in e [, ..]* satisfies e, function (p [: T], ..) e, lists [e, ..], contexts {k : e, ..}, ranges (nine bracket
+   combinations ( [ ] x ) ] [, endpoints atoms: a name or a literal), invocations with any number of positional arguments and with
+   named arguments; a precedence-climbing Spec parser for them (eparse_tokens; compared with the real parser on every run by
+   props/c06ext.py) and the two renderers.  The open constructs (if, for, some, every, function) end with an expression that extends as
+   far to the right as possible: erender_min puts them in parentheses exactly where a continuing token follows (an operator, between,
+   instance of, `.`, `[`, `(`), i.e. on the LEFT of an operator but not on the right, and puts every other operand in parentheses
+   exactly where its level is below the level of its position.
+   Not in these trees: unary tests (`< 5` as an expression, `x in (a, b)`), string keys of contexts, qualified names as range endpoints,
+   types other than the built-in ones after `instance of` and in formal parameters, `external` function bodies, date and time literals,
+   multi-word names. *)
+From DV Require Import C06.ModelExt C06.ExtLex.
+From DV Require C06.ExtBase C06.ExtRound C06.ExtFull C06.ExtFuel C06.ExtNeeded C06.ExtNeededAt C06.ExtEmbed C06.ExtText C06.ExtTextFree.
+
+(* ROUND TRIP, all trees of the extended language (no bound on depth, width or the length of the lists) *)
+Theorem C06_roundtrip_min_ext : forall t : etree, eparse_tokens (erender_min t) = Some t.
+Proof. exact ExtFuel.eroundtrip_min_tokens. Qed.
+Print Assumptions C06_roundtrip_min_ext.
+
+Theorem C06_roundtrip_full_ext : forall t : etree, eparse_tokens (erender_full t) = Some t.
+Proof. exact ExtFuel.eroundtrip_full_tokens. Qed.
+Print Assumptions C06_roundtrip_full_ext.
+
+(* the fuel of eparse_tokens (number of tokens + 1) is always enough: whatever any fuel parses, eparse_tokens parses *)
+Theorem C06_fuel_suffices_ext : forall f ts t, eparse_fuel f ts = Some t -> eparse_tokens ts = Some t.
+Proof. exact ExtFuel.eparse_tokens_complete. Qed.
+Print Assumptions C06_fuel_suffices_ext.
+
+(* NEEDED PARENTHESES, all trees.  Soundness direction of the extended Spec parser as a counting invariant: whatever token list the
+   parser turns into t (any fuel, any parentheses) has at least as many opening parentheses as the minimal rendering of t (counted
+   over all `(`: grouping, invocation, parameter list, range) *)
+Theorem C06_min_rendering_minimal_ext : forall f ts t, eparse_fuel f ts = Some t -> (ecount_lp (erender_min t) <= ecount_lp ts)%nat.
+Proof. exact ExtNeeded.eparse_count. Qed.
+Print Assumptions C06_min_rendering_minimal_ext.
+
+(* hence: with the k-th opening parenthesis of the minimal rendering and the closing parenthesis that matches it by depth removed,
+   the parser does not give t back: another tree, or no tree *)
+Theorem C06_needed_paren_ext : forall t k, (k < ecount_lp (erender_min t))%nat -> eparse_tokens (edrop_paren k (erender_min t)) <> Some t.
+Proof. exact ExtNeeded.eneeded_paren. Qed.
+Print Assumptions C06_needed_paren_ext.
+
+Theorem C06_needed_paren_fuel_ext : forall t k f, (k < ecount_lp (erender_min t))%nat -> eparse_fuel f (edrop_paren k (erender_min t)) <> Some t.
+Proof. exact ExtNeeded.eneeded_paren_fuel. Qed.
+Print Assumptions C06_needed_paren_fuel_ext.
+
+(* without reference to edrop_paren (a range like `[a..b)` has a closing parenthesis of its own): wherever an opening and a later
+   closing parenthesis stand in the minimal rendering, the token list without the two does not parse back to t *)
+Theorem C06_needed_paren_split_ext : forall t pre body post, erender_min t = pre ++ XLp :: body ++ XRp :: post ->
+  eparse_tokens (pre ++ body ++ post) <> Some t.
+Proof. exact ExtNeeded.eneeded_paren_split. Qed.
+Print Assumptions C06_needed_paren_split_ext.
+
+(* the structural form: x occurs in t at any depth (ExtNeededAt.Occ: a chain of operand positions, each with the level m it admits and
+   the flag f "a continuing token follows": the operands of the operator fragment as in C06_needed_paren_at, with f = true for every
+   left operand and the parent's f for the right-most one; 0 / false for conditions, branches, domains, bodies, list items, context
+   entries, arguments) and paren m f x = true: x is an operator form below the level of its position, or an open construct followed
+   by a continuing token.  Then the minimal rendering has a pair around the tokens of x and what remains without it does not parse
+   back to t *)
+Theorem C06_needed_paren_at_ext : forall t m f x, ExtNeededAt.Occ t m f x -> paren m f x = true ->
+  exists pre post,
+    erender_min t = pre ++ XLp :: ExtRound.ebody false x ++ XRp :: post /\
+    eparse_tokens (pre ++ ExtRound.ebody false x ++ post) <> Some t.
+Proof. exact ExtNeededAt.eneeded_paren_at. Qed.
+Print Assumptions C06_needed_paren_at_ext.
+
+(* the two positions named in the task: an open construct on the LEFT of a binary operator is rendered in parentheses and they are
+   needed; on the RIGHT it is rendered without *)
+Theorem C06_open_left_needed_ext : forall o l r, low l = true ->
+  erender_min (EBin o l r) = XLp :: ExtRound.ebody false l ++ XRp :: XOp o :: rat (rc o) false r /\
+  eparse_tokens (ExtRound.ebody false l ++ XOp o :: rat (rc o) false r) <> Some (EBin o l r).
+Proof. exact ExtNeededAt.open_left_needed. Qed.
+Print Assumptions C06_open_left_needed_ext.
+
+Theorem C06_open_right_bare_ext : forall o l r, low r = true ->
+  erender_min (EBin o l r) = rat (lc o) true l ++ XOp o :: ExtRound.ebody false r.
+Proof. exact ExtNeededAt.open_right_bare. Qed.
+Print Assumptions C06_open_right_bare_ext.
+
+(* the extended renderers print a tree of the operator fragment exactly as the renderers of the fragment do, and the extended parser
+   reads those renderings back *)
+Theorem C06_ext_conservative : forall t : tree,
+  erender_min (embed t) = map embed_tok (render_min t) /\ erender_full (embed t) = map embed_tok (render_full t) /\
+  eparse_tokens (map embed_tok (render_min t)) = Some (embed t) /\ eparse_tokens (map embed_tok (render_full t)) = Some (embed t).
+Proof.
+  exact (fun t => conj (ExtEmbed.erender_min_embed t) (conj (ExtEmbed.erender_full_embed t) (conj (ExtEmbed.eparse_embed_min t) (ExtEmbed.eparse_embed_full t)))).
+Qed.
+Print Assumptions C06_ext_conservative.
+
+(* not vacuous: a for inside an if inside a function definition, on the left of `*`, a quantified expression over a list with a range on
+   the right:  ( function ( p : T , q ) if a then for i in b , j in c .. d return i + j else e ) * ( f + some i in [ a , [ 2 .. 4 ] ] satisfies i )
+   three pairs; without the first the else branch takes everything that follows (another tree), without the second (the parameter
+   list) no tree, without the third another tree *)
+Example C06_ext_nonvacuous :
+  erender_min ExtNeededAt.ext_witness =
+    [XLp; XFun; XLp; XPar 1 (Some 0%N); XComma; XPar 3 None; XRp; XIf; XAtom 1; XThen; XFor; XBind 5; XAtom 7; XComma;
+     XBind 9; XAtom 11; XEll; XAtom 13; XReturn; XAtom 5; XOp Add; XAtom 9; XElse; XAtom 15; XRp;
+     XOp Mul; XLp; XAtom 17; XOp Add; XSome; XBind 5; XLb; XAtom 1; XComma; XLb; XAtom 2; XEll; XAtom 4; XRb; XRb; XSatisfies; XAtom 5; XRp] /\
+  eparse_tokens (erender_min ExtNeededAt.ext_witness) = Some ExtNeededAt.ext_witness /\
+  eparse_tokens (erender_full ExtNeededAt.ext_witness) = Some ExtNeededAt.ext_witness /\
+  ecount_lp (erender_min ExtNeededAt.ext_witness) = 3%nat /\
+  eparse_tokens (edrop_paren 0%nat (erender_min ExtNeededAt.ext_witness)) =
+    Some (EFun [(1%N, Some 0%N); (3%N, None)]
+            (EIf (EAtom 1)
+                 (EFor (5%N, EAtom 7, None) [(9%N, EAtom 11, Some (EAtom 13))] (EBin Add (EAtom 5) (EAtom 9)))
+                 (EBin Mul (EAtom 15) (EBin Add (EAtom 17) (EQuant QSome (5%N, EList [EAtom 1; ERange RoB 2 4 RcB]) [] (EAtom 5)))))) /\
+  eparse_tokens (edrop_paren 1%nat (erender_min ExtNeededAt.ext_witness)) = None /\
+  eparse_tokens (edrop_paren 2%nat (erender_min ExtNeededAt.ext_witness)) =
+    Some (EBin Add (EBin Mul ExtNeededAt.ext_witness_fun (EAtom 17)) (EQuant QSome (5%N, EList [EAtom 1; ERange RoB 2 4 RcB]) [] (EAtom 5))).
+Proof. exact ExtNeededAt.ext_witness_outcomes. Qed.
+Print Assumptions C06_ext_nonvacuous.
+
+(* the function definition of the witness meets the hypotheses of C06_needed_paren_at_ext (left operand of `*`: an open construct
+   followed by a continuing token), the for expression three levels down stands between then and else and needs no parentheses *)
+Example C06_ext_nonvacuous_occ :
+  (ExtNeededAt.Occ ExtNeededAt.ext_witness (lc Mul) true ExtNeededAt.ext_witness_fun /\ paren (lc Mul) true ExtNeededAt.ext_witness_fun = true) /\
+  (ExtNeededAt.Occ ExtNeededAt.ext_witness 0%nat false (EFor (5%N, EAtom 7, None) [(9%N, EAtom 11, Some (EAtom 13))] (EBin Add (EAtom 5) (EAtom 9))) /\
+   paren 0%nat false (EFor (5%N, EAtom 7, None) [(9%N, EAtom 11, Some (EAtom 13))] (EBin Add (EAtom 5) (EAtom 9))) = false).
+Proof. exact (conj ExtNeededAt.ext_witness_occ ExtNeededAt.ext_witness_inner). Qed.
+Print Assumptions C06_ext_nonvacuous_occ.
+
+(* TEXT LEVEL (with C06_lex_unlex / C06_lex_unlex_layout): parse_text_ext = lexer model, its tokens read as tokens of the extended Spec
+   (a name followed by `:` is a key), extended Spec parser.  Whatever the extended Spec parser makes of a token list it makes of its text,
+   for all token lists whose type numbers are < 6, whose member names and keys are positions in keys, that are outside the known finding
+   between-lower-bound-and (eflag_ok) and that contain none of XFor XSome XEvery XFun XBind XPar XReturn XSatisfies (etok_wf): the
+   keywords for / some / every (till_in flag) and function (look-ahead terminator) are outside the printable token lists of C06_lex_unlex.
+   So at the text level the statement covers if, lists, contexts, ranges and both kinds of argument lists; the binders and function
+   definitions are covered at the token level above and, from text, by the correspondence (props/c06ext.py renders the Coq token lists to
+   text for the real parser) *)
+Theorem C06_parse_text_unlex_ext : forall keys enc dec ts, keys_ok keys = true -> atoms_ok keys enc dec ->
+  eflag_ok false ts = true -> forallb (etok_wf keys) ts = true ->
+  parse_text_ext keys dec (unlex (econc_all keys enc ts)) = eparse_tokens ts.
+Proof. intros keys enc dec ts Hk Ha. exact (ExtText.parse_text_unlex_ext keys enc dec Hk Ha ts). Qed.
+Print Assumptions C06_parse_text_unlex_ext.
+
+Theorem C06_text_roundtrip_min_ext : forall keys enc dec t, keys_ok keys = true -> atoms_ok keys enc dec ->
+  eflag_ok false (erender_min t) = true -> forallb (etok_wf keys) (erender_min t) = true ->
+  parse_text_ext keys dec (unlex (econc_all keys enc (erender_min t))) = Some t.
+Proof. intros keys enc dec t Hk Ha. exact (ExtText.text_roundtrip_min_ext keys enc dec Hk Ha t). Qed.
+Print Assumptions C06_text_roundtrip_min_ext.
+
+Theorem C06_text_roundtrip_full_ext : forall keys enc dec t, keys_ok keys = true -> atoms_ok keys enc dec ->
+  eflag_ok false (erender_full t) = true -> forallb (etok_wf keys) (erender_full t) = true ->
+  parse_text_ext keys dec (unlex (econc_all keys enc (erender_full t))) = Some t.
+Proof. intros keys enc dec t Hk Ha. exact (ExtText.text_roundtrip_full_ext keys enc dec Hk Ha t). Qed.
+Print Assumptions C06_text_roundtrip_full_ext.
+
+Theorem C06_text_roundtrip_min_layout_ext : forall keys enc dec t lead gaps, keys_ok keys = true -> atoms_ok keys enc dec ->
+  eflag_ok false (erender_min t) = true -> forallb (etok_wf keys) (erender_min t) = true ->
+  forallb piece_ok lead = true -> forallb gap_ok gaps = true ->
+  parse_text_ext keys dec (render_layout lead ++ unlex_lay gaps (econc_all keys enc (erender_min t))) = Some t.
+Proof. intros keys enc dec t lead gaps Hk Ha. exact (ExtText.text_roundtrip_min_layout_ext keys enc dec Hk Ha t lead gaps). Qed.
+Print Assumptions C06_text_roundtrip_min_layout_ext.
+
+Theorem C06_text_roundtrip_full_layout_ext : forall keys enc dec t lead gaps, keys_ok keys = true -> atoms_ok keys enc dec ->
+  eflag_ok false (erender_full t) = true -> forallb (etok_wf keys) (erender_full t) = true ->
+  forallb piece_ok lead = true -> forallb gap_ok gaps = true ->
+  parse_text_ext keys dec (render_layout lead ++ unlex_lay gaps (econc_all keys enc (erender_full t))) = Some t.
+Proof. intros keys enc dec t lead gaps Hk Ha. exact (ExtText.text_roundtrip_full_layout_ext keys enc dec Hk Ha t lead gaps). Qed.
+Print Assumptions C06_text_roundtrip_full_layout_ext.
+
+(* a needed pair removed, at the text level: the text of the minimal rendering without the k-th pair does not parse back to t *)
+Theorem C06_text_needed_paren_ext : forall keys enc dec t k, keys_ok keys = true -> atoms_ok keys enc dec ->
+  eflag_ok false (edrop_paren k (erender_min t)) = true -> forallb (etok_wf keys) (edrop_paren k (erender_min t)) = true ->
+  (k < ecount_lp (erender_min t))%nat ->
+  parse_text_ext keys dec (unlex (econc_all keys enc (edrop_paren k (erender_min t)))) <> Some t.
+Proof. intros keys enc dec t k Hk Ha. exact (ExtText.text_needed_paren_ext keys enc dec Hk Ha t k). Qed.
+Print Assumptions C06_text_needed_paren_ext.
+
+(* not vacuous: a tree with if, a list, a context, a range and named arguments meets the side conditions; its text is
+   `if a < 1 then [ b , { c : ( a .. b ] } ] else d ( a : 1 , b : [ ] ) ` *)
+Example C06_text_nonvacuous_ext :
+  keys_ok keys_ex = true /\ eflag_ok false (erender_min ExtText.etree_ex) = true /\ forallb (etok_wf keys_ex) (erender_min ExtText.etree_ex) = true /\
+  unlex (econc_all keys_ex enc_ex (erender_min ExtText.etree_ex)) =
+    [105; 102; 32; 97; 32; 60; 32; 49; 32; 116; 104; 101; 110; 32; 91; 32; 98; 32; 44; 32; 123; 32; 99; 32; 58; 32; 40; 32; 97; 32; 46; 46; 32; 98; 32; 93; 32; 125; 32; 93; 32;
+     101; 108; 115; 101; 32; 100; 32; 40; 32; 97; 32; 58; 32; 49; 32; 44; 32; 98; 32; 58; 32; 91; 32; 93; 32; 41; 32]%N /\
+  parse_text_ext keys_ex dec_ex (unlex (econc_all keys_ex enc_ex (erender_min ExtText.etree_ex))) = Some ExtText.etree_ex.
+Proof. exact ExtText.text_example_ext. Qed.
+Print Assumptions C06_text_nonvacuous_ext.
+
+(* the proved part of the text-level statement in terms of the TREE: for every tree without for / some / every / function
+   (binder_free: any nesting of operators, between, if, lists, contexts, ranges, filters, paths, instance of, invocations with positional or
+   named arguments), with member names / keys / type numbers in range (names_ok) and outside the known finding (eflag_ok), the text of both
+   renderings parses back to the tree.  Missing: exactly the trees that contain a for, some, every or function node *)
+Theorem C06_text_roundtrip_ext_partial : forall keys enc dec t, keys_ok keys = true -> atoms_ok keys enc dec -> binder_free t = true ->
+  (eflag_ok false (erender_min t) = true -> forallb (ExtTextFree.names_ok keys) (erender_min t) = true ->
+   parse_text_ext keys dec (unlex (econc_all keys enc (erender_min t))) = Some t) /\
+  (eflag_ok false (erender_full t) = true -> forallb (ExtTextFree.names_ok keys) (erender_full t) = true ->
+   parse_text_ext keys dec (unlex (econc_all keys enc (erender_full t))) = Some t).
+Proof. exact ExtTextFree.text_roundtrip_ext_free. Qed.
+Print Assumptions C06_text_roundtrip_ext_partial.
+
+(* the full statement at the text level, for ALL trees of the extended language, is the proposition below; it is proved above for the
+   trees whose renderings contain no binder token (etok_wf); what is missing for the rest is a lexer theorem for the keywords for, some,
+   every (the till_in flag, set by the parser's mid-rule actions for the name that follows) and function (terminated by a look-ahead to
+   `(`): these four are outside C06_lex_unlex's printable token lists.  With such a theorem the statement would still need a reading of
+   `name in` as a variable binding after for / some / every / `,` (eabs reads it as an atom and the operator in) *)
+Definition C06_text_roundtrip_ext_statement : Prop :=
+  forall keys enc dec (t : etree), keys_ok keys = true -> atoms_ok keys enc dec ->
+  eflag_ok false (erender_min t) = true ->
+  forallb (fun tk => match tk with XInst ty => (ty <? 6)%N | XDot n | XKey n | XBind n => (n <? N.of_nat (List.length keys))%N
+                                 | XPar n None => (n <? N.of_nat (List.length keys))%N
+                                 | XPar n (Some ty) => (n <? N.of_nat (List.length keys))%N && (ty <? 6)%N | _ => true end) (erender_min t) = true ->
+  parse_text_ext keys dec (unlex (econc_all keys enc (erender_min t))) = Some t.
